@@ -92,6 +92,17 @@ def gen_export(r, dense_assign=False):
                     assigned = None
             rt[str(t)] = {"course_id": assigned, "course_instructor": instr, "choices": ch}
         regs[str(rid)] = {"parts": rp, "tracks": rt, "persona": {"given_names": "Gé%d" % rid, "family_name": "R%d" % rid}}
+    if r.random() < 0.15:
+        # ties: everybody has the same choice list and the courses are small, so that equally good solutions exist and the one found
+        # depends on the order of the participants
+        common = r.sample(cids, min(3, nc))
+        for reg in regs.values():
+            for rt in reg["tracks"].values():
+                if rt["choices"]:
+                    rt["choices"] = list(common)
+        for c in courses.values():
+            c["max_size"] = r.choice([1, 2, 2])
+            c["min_size"] = 0
     e["registrations"] = regs
     return e, tracks
 
